@@ -1,5 +1,7 @@
-(* C09_Witness: concrete histories on which the faithful models violate the property text
-   (findings F-1 and F-14), each meeting every documented precondition of the Channel API. *)
+(* C09_Witness: concrete histories on which the models of the OLD shapes of the code (ri = false: before
+   bbde8b0; se = false / ne = false: before a5a0563) violate the property text (findings F-1 and F-14),
+   each meeting every documented precondition of the Channel API -- and the same histories on the
+   models of the current tree, where they run and report what the interest map says. *)
 From Coq Require Import List ZArith NArith Lia Bool Arith.
 From Muduo Require Import Gen_Consts Gen_C09 C09_Model.
 Import ListNotations.
@@ -40,12 +42,12 @@ Proof.
   exact I.
 Qed.
 
-Lemma w_reregister_faults : pp_run false pp_init w_reregister = Fault.
-Proof. vm_compute. reflexivity. Qed.
-Lemma w_reregister_fixed_ok : exists st outs, pp_run true pp_init w_reregister = Ok (st, outs).
-Proof. vm_compute. eexists _, _. reflexivity. Qed.
-Lemma w_reregister_epoll_ok : exists st outs, ep_run ep_init w_reregister = Ok (st, outs).
-Proof. vm_compute. eexists _, _. reflexivity. Qed.
+Lemma w_reregister_faults : forall ne, pp_run false ne pp_init w_reregister = Fault.
+Proof. intros [|]; vm_compute; reflexivity. Qed.
+Lemma w_reregister_fixed_ok : forall ne, exists st outs, pp_run true ne pp_init w_reregister = Ok (st, outs).
+Proof. intros [|]; vm_compute; eexists _, _; reflexivity. Qed.
+Lemma w_reregister_epoll_ok : forall se, exists st outs, ep_run se ep_init w_reregister = Ok (st, outs).
+Proof. intros [|]; vm_compute; eexists _, _; reflexivity. Qed.
 
 Lemma w_double_disable_ok : hist_ok any_hist spec0 w_double_disable.
 Proof.
@@ -67,12 +69,12 @@ Proof.
 Qed.
 
 Lemma w_double_disable_epoll : exists st outs,
-  ep_run ep_init w_double_disable = Ok (st, outs) /\ last outs [] = [(0, POLLHUP)] /\
+  ep_run false ep_init w_double_disable = Ok (st, outs) /\ last outs [] = [(0, POLLHUP)] /\
   callbacks (last outs []) = [(0, CbClose)].
 Proof. vm_compute. eexists _, _. repeat split. Qed.
-Lemma w_double_disable_poll : forall ri, exists st outs,
-  pp_run ri pp_init w_double_disable = Ok (st, outs) /\ last outs [] = [].
-Proof. intros [|]; vm_compute; eexists _, _; repeat split. Qed.
+Lemma w_double_disable_poll : forall ri ne, exists st outs,
+  pp_run ri ne pp_init w_double_disable = Ok (st, outs) /\ last outs [] = [].
+Proof. intros [|] [|]; vm_compute; eexists _, _; repeat split. Qed.
 
 Lemma w_fresh_disable_remove_ok : hist_ok any_hist spec0 w_fresh_disable_remove.
 Proof.
@@ -81,7 +83,7 @@ Proof.
   hstep; [guard_upd|exact I|].
   hstep; [eexists; split; [reflexivity|]; split; reflexivity|exact I|exact I].
 Qed.
-Lemma w_fresh_disable_remove_faults : forall ri, pp_run ri pp_init w_fresh_disable_remove = Fault.
+Lemma w_fresh_disable_remove_faults : forall ri, pp_run ri false pp_init w_fresh_disable_remove = Fault.
 Proof. intros [|]; vm_compute; reflexivity. Qed.
 
 Lemma w_fresh_disable_poll_ok : hist_ok any_hist spec0 w_fresh_disable_poll.
@@ -97,14 +99,14 @@ Proof.
   destruct c0 as [|c0]; cbn; [|discriminate]. intros H. injection H as <-. reflexivity.
 Qed.
 Lemma w_fresh_disable_poll_both : forall ri, exists st outs st2 outs2,
-  ep_run ep_init w_fresh_disable_poll = Ok (st, outs) /\ last outs [] = [(0, POLLHUP)] /\
-  pp_run ri pp_init w_fresh_disable_poll = Ok (st2, outs2) /\ last outs2 [] = [(0, POLLHUP)].
+  ep_run false ep_init w_fresh_disable_poll = Ok (st, outs) /\ last outs [] = [(0, POLLHUP)] /\
+  pp_run ri false pp_init w_fresh_disable_poll = Ok (st2, outs2) /\ last outs2 [] = [(0, POLLHUP)].
 Proof. intros [|]; vm_compute; eexists _, _, _, _; repeat split. Qed.
 
 Lemma w_backends_differ :
   hist_ok any_hist spec0 w_double_disable /\
-  (exists st outs, ep_run ep_init w_double_disable = Ok (st, outs) /\ last outs [] = [(0, POLLHUP)]) /\
-  (forall ri, exists st outs, pp_run ri pp_init w_double_disable = Ok (st, outs) /\ last outs [] = []).
+  (exists st outs, ep_run false ep_init w_double_disable = Ok (st, outs) /\ last outs [] = [(0, POLLHUP)]) /\
+  (forall ri ne, exists st outs, pp_run ri ne pp_init w_double_disable = Ok (st, outs) /\ last outs [] = []).
 Proof.
   split; [exact w_double_disable_ok|]. split; [|exact w_double_disable_poll].
   destruct w_double_disable_epoll as [st [outs [A [B _]]]]. eauto.
@@ -146,6 +148,22 @@ Qed.
 Lemma w_reregister_current_ok : exists st outs, pp_run_current pp_init w_reregister = Ok (st, outs).
 Proof. vm_compute. eexists _, _. reflexivity. Qed.
 
+(* F-14 is fixed: after disableAll(); disableAll() NEITHER back-end of the current tree reports the
+   hung-up descriptor; disableAll() on a fresh channel followed by remove() runs on both; a fresh
+   channel that was only disabled is reported by neither *)
+Lemma w_double_disable_current :
+  (exists st outs, ep_run_current ep_init w_double_disable = Ok (st, outs) /\ last outs [] = []) /\
+  (exists st outs, pp_run_current pp_init w_double_disable = Ok (st, outs) /\ last outs [] = []).
+Proof. split; vm_compute; eexists _, _; split; reflexivity. Qed.
+Lemma w_fresh_disable_remove_current :
+  (exists st outs, ep_run_current ep_init w_fresh_disable_remove = Ok (st, outs)) /\
+  (exists st outs, pp_run_current pp_init w_fresh_disable_remove = Ok (st, outs)).
+Proof. split; vm_compute; eexists _, _; reflexivity. Qed.
+Lemma w_fresh_disable_poll_current :
+  (exists st outs, ep_run_current ep_init w_fresh_disable_poll = Ok (st, outs) /\ last outs [] = []) /\
+  (exists st outs, pp_run_current pp_init w_fresh_disable_poll = Ok (st, outs) /\ last outs [] = []).
+Proof. split; vm_compute; eexists _, _; split; reflexivity. Qed.
+
 (* stale within the batch: channels 0 and 1 are both readable; the read callback of 0 disables 1 *)
 Definition w_two : list op := [New 0 0; New 1 1; Upd UEnableR 0; Upd UEnableR 1].
 Definition h_stale : handlers :=
@@ -153,25 +171,37 @@ Definition h_stale : handlers :=
 Definition all_run : nat -> bool := fun _ => true.
 Definition readyIN : nat -> N := fun _ => POLLIN.
 
-Lemma w_two_ok : hist_ok sclean spec0 w_two.
+Lemma w_two_ok : hist_ok any_hist spec0 w_two.
 Proof.
-  unfold w_two.
+  unfold w_two, any_hist.
   hstep; [reflexivity|exact I|].
   hstep; [reflexivity|exact I|].
-  hstep; [guard_upd|clean_by_compute|].
-  hstep; [guard_upd|clean_by_compute|].
+  hstep; [guard_upd|exact I|].
+  hstep; [guard_upd|exact I|].
   exact I.
 Qed.
 
 (* the loop's own channels as the constructors leave them: timer channel 0 on descriptor 3, wake-up
    channel 1 on descriptor 4 *)
 Definition w_loop_init : list op := [New 0 3; Upd UEnableR 0; New 1 4; Upd UEnableR 1].
-Lemma w_loop_init_ok : hist_ok sclean spec0 w_loop_init.
+Lemma w_loop_init_ok : hist_ok any_hist spec0 w_loop_init.
 Proof.
-  unfold w_loop_init.
+  unfold w_loop_init, any_hist.
   hstep; [reflexivity|exact I|].
-  hstep; [guard_upd|clean_by_compute|].
+  hstep; [guard_upd|exact I|].
   hstep; [reflexivity|exact I|].
-  hstep; [guard_upd|clean_by_compute|].
+  hstep; [guard_upd|exact I|].
+  exact I.
+Qed.
+
+(* the F-1 witness meets the preconditions (no extra hypothesis) *)
+Lemma w_reregister_pre : hist_ok any_hist spec0 w_reregister.
+Proof.
+  unfold w_reregister, any_hist.
+  hstep; [reflexivity|exact I|].
+  hstep; [guard_upd|exact I|].
+  hstep; [guard_upd|exact I|].
+  hstep; [eexists; split; [reflexivity|]; split; reflexivity|exact I|].
+  hstep; [guard_upd|exact I|].
   exact I.
 Qed.
